@@ -191,7 +191,7 @@ func genLockstep(fam lsFamily) func(r *core.Rand, env *core.Env, run int) *Scena
 	return func(r *core.Rand, env *core.Env, run int) *Scenario {
 		sc := &Scenario{Kind: fam.prop}
 		sc.Knobs = Knobs{ShardNum: pick(r, []int{1, 2, 3, 8, 1024}), Databases: 1, YieldRMW: r.Bool(0.5), MaxSteps: 20000,
-			Strategy: pick(r, []int{0, 1, 1, 2}), PreemptPct: pick(r, []int{5, 20, 50})}
+			Strategy: pick(r, []int{0, 1, 1, 2, 3}), PreemptPct: pick(r, []int{5, 20, 50})}
 		aim := run%8 == 7
 		ex, _ := json.Marshal(lsExtra{Aim: aim})
 		sc.Extra = ex
